@@ -71,6 +71,16 @@ def untraced(fn: Any, *args: Any) -> Any:
     return fn(*args)
 
 
+def shard_spec(mod: Any, tier: str, index: int) -> Dict[str, Any]:
+    """The shard description: from the file the runner wrote (computing the shard list can be expensive), else computed."""
+    path = os.environ.get("VF_SHARDS_FILE")
+    if path and os.path.exists(path):
+        doc = json.load(open(path))
+        if doc.get("module") == mod.__name__ and doc.get("tier") == tier:
+            return doc["shards"][index]
+    return mod.shards(tier)[index]
+
+
 def exception_key(exc: BaseException) -> str:
     """``<ExcType>@<file>:<function>`` of the innermost frame that lies in /repo."""
     tb = traceback.extract_tb(exc.__traceback__)
